@@ -94,6 +94,17 @@ type gor struct {
 
 var stateRe = regexp.MustCompile(`^goroutine \d+ \[([^\],]+)`)
 
+// firstOwn reports whether the innermost frame outside the Go runtime belongs to the given package.
+func firstOwn(frames []string, pkg string) bool {
+	for _, f := range frames {
+		if strings.HasPrefix(f, "runtime.") {
+			continue
+		}
+		return strings.Contains(f, pkg)
+	}
+	return false
+}
+
 func analyse(dump string) (cycle string, states []string) {
 	var gs []gor
 	for _, blk := range strings.Split(dump, "\n\n") {
@@ -170,8 +181,9 @@ func analyse(dump string) (cycle string, states []string) {
 				add(g.role, "perio")
 			case has("perio.(*PERIOGroup).stopTicker"):
 				add(g.role, "ticker")
-			case g.role == "loop" && g.state == "chan send" && has("pfcp.(*Sess).Push"):
-				// a session's packet queue is filled and emptied by the event loop alone
+			case g.role == "loop" && g.state == "chan send" && firstOwn(g.frames, "/internal/pfcp."):
+				// the event loop is the only consumer of every channel of package pfcp (its three input queues, the sessions'
+				// packet queues): parked in a plain send inside that package it waits for itself
 				add("loop", "loop")
 			}
 		case "chan receive":
